@@ -31,6 +31,7 @@
 mod config;
 mod errors;
 
+#[cfg_attr(deadpool_verif, allow(unused_imports))]
 use std::{
     convert::TryInto,
     ops::{Deref, DerefMut},
@@ -41,6 +42,7 @@ use std::{
     time::Duration,
 };
 
+#[cfg_attr(deadpool_verif, allow(unused_imports))]
 use tokio::sync::{Semaphore, TryAcquireError};
 
 pub use crate::Status;
@@ -161,10 +163,25 @@ impl<T> Pool<T> {
         Self {
             inner: Arc::new(PoolInner {
                 config: *config,
+                #[cfg(deadpool_verif)]
+                queue: crate::verif::Mutex::new(Vec::with_capacity(config.max_size)),
+                #[cfg(deadpool_verif)]
+                size: crate::verif::AtomicUsize::new(0),
+                #[cfg(deadpool_verif)]
+                size_semaphore: crate::verif::Semaphore::new(config.max_size),
+                #[cfg(deadpool_verif)]
+                available: crate::verif::AtomicIsize::new(0),
+                #[cfg(deadpool_verif)]
+                semaphore: crate::verif::Semaphore::new(0),
+                #[cfg(not(deadpool_verif))]
                 queue: Mutex::new(Vec::with_capacity(config.max_size)),
+                #[cfg(not(deadpool_verif))]
                 size: AtomicUsize::new(0),
+                #[cfg(not(deadpool_verif))]
                 size_semaphore: Semaphore::new(config.max_size),
+                #[cfg(not(deadpool_verif))]
                 available: AtomicIsize::new(0),
+                #[cfg(not(deadpool_verif))]
                 semaphore: Semaphore::new(0),
             }),
         }
@@ -331,6 +348,27 @@ impl<T> Pool<T> {
         self.inner.is_closed()
     }
 
+    /// Read-only snapshot of the internal counters (verification builds
+    /// only). Returns `None` while the queue lock is held.
+    #[cfg(deadpool_verif)]
+    pub fn verif_snapshot(&self) -> Option<crate::verif::UnmanagedSnapshot> {
+        let queue = self.inner.queue.try_lock_silent().ok()?;
+        Some(crate::verif::UnmanagedSnapshot {
+            permits: self.inner.semaphore.available_permits(),
+            size_permits: self.inner.size_semaphore.available_permits(),
+            closed: self.inner.semaphore.is_closed_silent(),
+            size: self.inner.size.load_silent(),
+            available: self.inner.available.load_silent(),
+            queued: queue.len(),
+        })
+    }
+
+    /// Id of the queue mutex shim (verification builds only).
+    #[cfg(deadpool_verif)]
+    pub fn verif_queue_id(&self) -> u64 {
+        self.inner.queue.id()
+    }
+
     /// Retrieves [`Status`] of this [`Pool`].
     #[must_use]
     pub fn status(&self) -> Status {
@@ -353,19 +391,34 @@ impl<T> Pool<T> {
 #[derive(Debug)]
 struct PoolInner<T> {
     config: PoolConfig,
+    #[cfg(deadpool_verif)]
+    queue: crate::verif::Mutex<Vec<T>>,
+    #[cfg(deadpool_verif)]
+    size: crate::verif::AtomicUsize,
+    #[cfg(deadpool_verif)]
+    size_semaphore: crate::verif::Semaphore,
+    #[cfg(deadpool_verif)]
+    available: crate::verif::AtomicIsize,
+    #[cfg(deadpool_verif)]
+    semaphore: crate::verif::Semaphore,
+    #[cfg(not(deadpool_verif))]
     queue: Mutex<Vec<T>>,
+    #[cfg(not(deadpool_verif))]
     size: AtomicUsize,
     /// This semaphore has as many permits as `max_size - size`. Every time
     /// an [`Object`] is added to the [`Pool`] a permit is removed from the
     /// semaphore and every time an [`Object`] is removed a permit is returned
     /// back.
+    #[cfg(not(deadpool_verif))]
     size_semaphore: Semaphore,
     /// Number of available [`Object`]s in the [`Pool`]. If there are no
     /// [`Object`]s in the [`Pool`] this number can become negative and store
     /// the number of [`Future`]s waiting for an [`Object`].
     ///
     /// [`Future`]: std::future::Future
+    #[cfg(not(deadpool_verif))]
     available: AtomicIsize,
+    #[cfg(not(deadpool_verif))]
     semaphore: Semaphore,
 }
 
@@ -412,11 +465,26 @@ where
         let len = queue.len();
         Self {
             inner: Arc::new(PoolInner {
+                #[cfg(deadpool_verif)]
+                queue: crate::verif::Mutex::new(queue),
+                #[cfg(deadpool_verif)]
+                size: crate::verif::AtomicUsize::new(len),
+                #[cfg(deadpool_verif)]
+                size_semaphore: crate::verif::Semaphore::new(0),
+                #[cfg(deadpool_verif)]
+                available: crate::verif::AtomicIsize::new(len.try_into().unwrap()),
+                #[cfg(deadpool_verif)]
+                semaphore: crate::verif::Semaphore::new(len),
+                #[cfg(not(deadpool_verif))]
                 queue: Mutex::new(queue),
                 config: PoolConfig::new(len),
+                #[cfg(not(deadpool_verif))]
                 size: AtomicUsize::new(len),
+                #[cfg(not(deadpool_verif))]
                 size_semaphore: Semaphore::new(0),
+                #[cfg(not(deadpool_verif))]
                 available: AtomicIsize::new(len.try_into().unwrap()),
+                #[cfg(not(deadpool_verif))]
                 semaphore: Semaphore::new(len),
             }),
         }
